@@ -88,8 +88,8 @@ CLAIMED = {
                   "(line number, most recent label with sys, raw text, parsed signature), len(db) = number of sig lines, also with repeated section headers "
                   "(induction over lines); accepted TCP signatures lie in the documented ranges; layout / quirk / label texts denote what they say "
                   "(printer-parser round trips). " + TIE + GENSIG + GENFILE + " The shipped p0f.fp is one of the cases.",
-             note="Trusted: as C01; Python string primitives (split/partition/strip/int/encode) are modelled over code points (Unicode 15.0 white-space / digit tables) and exercised by the correspondence; a full "
-                  "print/parse round trip of whole TCP/HTTP signature texts is not proved (layout, quirks, labels, numbers are). No axioms.",
+             note="Trusted: as C01; Python string primitives (split/partition/strip/int/encode) are modelled over code points (Unicode 15.0 white-space / digit tables) and exercised by the correspondence; the print/parse round trips of "
+                  "whole TCP and HTTP signature texts are proved for printable signatures (C09_sig_roundtrip, C09_http_sig_roundtrip). No axioms.",
              tech="Coq proof (parser = scanner refinement by induction) + extracted-model differential correspondence on generated files", ref="DESIGN.md section 4 C09"),
  "C10": dict(text="Coq theorems: parse_file ends in a database or ParsingError(n) for EVERY line list (no other outcome constructor reachable: the partial "
                   "operations of the code are modelled as partial and proved safe); n is the 1-based number of the first offending line (the prefix parses, "
@@ -106,8 +106,8 @@ CLAIMED = {
  "C18": dict(text="Coq theorems: parse_layout (dump_layout l pad) = (l, pad if EOL present) for every layout over kinds 0..255 and padding 0..255; "
                   "parse_quirks (dump_quirks q) = q for all 2^17 quirk sets legal for the version; int(str(n)) = n. " + TIE + GEN + GENSIG + " Real packets are dumped, "
                   "parsed back and matched against themselves by the real code.",
-             note="Trusted: as C09. 'A signature written from a packet matches it exactly' is checked on the implementation (and its ingredients are the C01/C03 "
-                  "theorems) but not proved as one composed theorem. No axioms.",
+             note="Trusted: as C09. 'A signature written from a packet matches it exactly' is the theorem C18_written_matches (print, parse back, match: Exact) and is also "
+                  "checked on the implementation, from the packet signature and from the parsed packet's own option object. No axioms.",
              tech="Coq proof (printer/parser round trips) + differential correspondence, quirk sweep (thorough: all 2^17)", ref="DESIGN.md section 4 C18"),
  "C11": dict(text="Coq theorems: the line-by-line load (local database, commit after the last line) refines the atomic specification "
                   "load_spec; at EVERY line-read point the visible version is the one installed before the load, only the observation after the last line "
